@@ -152,7 +152,7 @@ def plan(prop, tier):
         for kind in ('func', 'method', 'instance'):
             if q and kind != 'func' and (sh['nkwo'] or sh['npos'] > 2):
                 continue
-            for part in (partials_for(sh, tier) if kind == 'func' else [None, (1, [])][:(1 if q else 2)]):
+            for part in (partials_for(sh, tier) if kind == 'func' else [None]):
                 if part and part[0] > sh['npos'] and not sh['varargs']:
                     continue
                 cfgs.append({'name': 'validate/%s/%s/partial=%s' % (kind, shape_name(sh), part), 'shape': sh, 'kind': kind,
